@@ -151,6 +151,9 @@ func (op *c37Op) run(be backend.Backend) {
 	op.returned.Store(true)
 }
 
+var c37LastDump []byte
+var c37ConfirmedBlocked atomic.Int64
+
 var c37HdrRe = regexp.MustCompile(`^goroutine (\d+) \[([^\],]+)`)
 
 // c37States returns, for every goroutine, its scheduler state, and "" instead when the function it is
@@ -167,6 +170,7 @@ func c37States() map[int64]string {
 		buf = make([]byte, 2*len(buf))
 	}
 	res := map[int64]string{}
+	c37LastDump = buf
 	for _, g := range bytes.Split(buf, []byte("\n\n")) {
 		lines := bytes.Split(g, []byte("\n"))
 		m := c37HdrRe.FindSubmatch(lines[0])
@@ -282,14 +286,36 @@ func c37Replay(v c37Vec, rng interface{ Intn(int) int }, res *kit.Result) (rec c
 			fpending, frozen = false, true
 			ctlEvents = append(ctlEvents, c37Event{Ev: "freeze", t: tFreeze.Load()})
 		}
+		// a lock-file operation that looks held back: the statement says it proceeds without any release, so give
+		// it real time (the machine may be overloaded and the goroutine simply not scheduled) before recording it
+		for _, op := range all {
+			if op.lock && !op.returned.Load() && op.tStart.Load() == 0 {
+				dump := append([]byte(nil), c37LastDump...)
+				grace := 15 * time.Second
+				if c37ConfirmedBlocked.Load() >= 3 {
+					grace = 100 * time.Millisecond
+				}
+				dl := time.Now().Add(grace)
+				for op.tStart.Load() == 0 && time.Now().Before(dl) {
+					time.Sleep(200 * time.Microsecond)
+				}
+				if op.tStart.Load() == 0 {
+					c37ConfirmedBlocked.Add(1)
+				} else {
+					res.Count("lock_op_slow_start", 1)
+					if f, err := os.OpenFile(kit.OutDir()+"/c37_slow_lock_dumps.txt", os.O_CREATE|os.O_APPEND|os.O_WRONLY, 0o644); err == nil {
+						fmt.Fprintf(f, "lock op %d gid %d looked parked before its start\n%s\n=====\n", op.o, op.gid.Load(), dump)
+						_ = f.Close()
+					}
+					if !c37Settle(all, fgid, fdone) {
+						return false
+					}
+				}
+			}
+		}
 		q := c37Event{Ev: "quiet", Blocked: []c37Blocked{}, t: clock.Add(1)}
 		for _, op := range all {
 			if !op.returned.Load() && op.tStart.Load() == 0 {
-				if op.lock && os.Getenv("VERIF_C37_DEBUG") != "" {
-					buf := make([]byte, 1<<16)
-					buf = buf[:runtime.Stack(buf, true)]
-					fmt.Fprintf(os.Stderr, "DEBUG lock op %d gid %d unstarted\n%s\n", op.o, op.gid.Load(), buf)
-				}
 				q.Blocked = append(q.Blocked, c37Blocked{O: op.o, Lock: op.lock})
 			}
 		}
